@@ -61,8 +61,21 @@ INVENTORY = [
      "Model/RangeConn.v conn_step (C09); conn_never_panics"),
     ("src/comprash.rs PathQuery / UriKey", "&self.string[..query_start]; &self.string[query_start..]", "Model/Panics.v pq_path/pq_query; "
      "pathquery_never_panics"),
-    ("src/comprash.rs clone_preferred", "values[0] (guarded by len == 1); list_header", "Model/Negotiate.v list_header (every slice is the get form); "
-     "list_header_never_panics (C06)"),
+    ("src/comprash.rs clone_preferred", "values[0] (guarded by len == 1); list_header; the weights (f32::from_str: nan, inf, 1e400, -0, .5, 1., +1 are "
+     "accepted) are tested with == 0.0, != 0.0 and == 1.0 only — total on every f32, NaN included; nothing orders them (partial_cmp is None on a NaN)",
+     "Model/Negotiate.v list_header (every slice is the get form), parse_q_dec (the grammar of f32::from_str), qclass; list_header_never_panics (C06); "
+     "Model/Panics.v ae_answer: accept_encoding_always_answered (any weight parser); sort_weights / weight_order_variant_refuted: a rewrite that sorts the "
+     "accepted codings with partial_cmp(..).unwrap() panics exactly on two or more members with a NaN weight; component c02.ae (compared, live: every pair of "
+     "13 core weight texts on two codings, ~60 further texts, random lists; pages cached / not cached / file / built-in 404 / under the 50-byte floor), "
+     "conn-weights, server-weights"),
+    ("client-controlled numbers: parsers, casts, comparisons (the complete list for the request path)",
+     "f32::from_str (weights, above); u64::from_str x2 (range; `as usize` only after the clamp to body.len() in apply_to_response); usize::from_str "
+     "(content-length; (len - buffer.len()) as u64 widens); the time crate's fixed-width integer fields (if-modified-since; compared as OffsetDateTime, a "
+     "total order); pos += read as u64 and read - (pos - end) as usize in stream_body (below the 64 KiB buffer); u32 integer * unit in "
+     "from_kvarn_cache_control (RESPONSE header); no from_str_radix, no sort / max / min over client-controlled values anywhere in src, utils, async, "
+     "extensions (vary.rs' documented callback sorts accept-language weights with unwrap_or(Equal): operator code, exercised on /v with lists of up to 64 members)",
+     "Model/Negotiate.v parse_q_dec, Model/Range.v sanitize_range / apply_range, Model/Http1Read.v body_length, Model/Ims.v, Model/Panics.v stream_chunk, "
+     "Model/CacheControl.v; the list is in Model/Panics.v ('Numbers a client controls')"),
     ("utils/src/parse.rs list_header", "header.get(a..b) x4; position + 1 / + 2", "Model/Negotiate.v; list_header_never_panics (C06)"),
     ("utils/src/parse.rs query + Query::insert/index_of/iterate_to_*", "query.get(..) x4; value_start.saturating_sub(1); "
      "self.pairs[index..]; self.pairs[..index]; index -= 1; Vec::insert(pos, ..); binary_search_by", "Model/Panics.v query; query_never_panics"),
@@ -201,7 +214,8 @@ def path_head(rng):
     if rng.random() < 0.3:
         hs.append((b"Access-Control-Request-Method", rng.choice([b"PUT", b"", b"\xff"])))
     if rng.random() < 0.2:
-        hs.append((b"Accept-Encoding", rng.choice([b"gzip", b"br", b"identity", b"gzip, br"])))
+        hs.append((b"Accept-Encoding", rng.choice([b"gzip", b"br", b"identity", b"gzip, br", b"gzip;q=nan, br", b"br;q=inf, gzip;q=-0", b"gzip;q=1e400",
+                                                   b"gzip;q=.5, br;q=1.", b"gzip;q=0x1p-1", b"zstd;q=-inf, gzip;q=NaN", weighted_list(rng, Q_CODINGS)])))
     if rng.random() < 0.2:
         hs.append((b"If-Modified-Since", rng.choice([b"Fri, 31 Dec 9999 23:59:59 GMT", b"x"])))
     body = b""
@@ -248,14 +262,17 @@ def valid_head(rng, extra=()):
                                        b"bytes=999999-", b"bytes=-5", b"bytes=2-5,7-9", b"bytes=3000-4000", b"bytes=2999-2999", b"bytes=",
                                        b"bytes=+1-+2", b"bytes=1-2\x00"])),
         (b"Accept-Encoding", lambda: rng.choice([b"gzip", b"br, gzip;q=0", b"identity;q=0", b"*;q=0", b"zstd;q=1.0, identity; q=0",
-                                                 b",,,", b";q=", b"gzip;q=;q=", b"q=q=q=,", b"gzip ; q = 0.5", b"\tgzip\t", b""])),
+                                                 b",,,", b";q=", b"gzip;q=;q=", b"q=q=q=,", b"gzip ; q = 0.5", b"\tgzip\t", b""] +
+                                                [weighted_list(rng, Q_CODINGS) for _ in range(12)])),
         (b"If-Modified-Since", lambda: rng.choice([b"Tue, 27 Jul 2021 14:08:15 GMT", b"Tue, 27 Jul 9999 14:08:15 GMT", b"Tue, 27 Jul 0000 14:08:15 GMT",
                                                    b"Xxx, 99 Jul 2021 25:61:61 GMT", b"Tue, 27 Jul -9999 14:08:15 GMT", b"Tue, 27 Jul +99999 14:08:15 GMT",
                                                    b"", b"0", b"Thu, 01 Jan 1970 00:00:00 GMT", b"Fri, 31 Dec 9999 23:59:59 GMT"])),
         (b"Origin", lambda: rng.choice([b"https://icelk.dev", b"http://localhost", b"null", b"localhost", b"http://", b"://", b"http://\xe9",
                                         b"https://icelk.dev:99999", b"a" * 70 + b"://x", b"http://[::1", b"http://a:b:c"])),
         (b"Access-Control-Request-Method", lambda: rng.choice([b"PUT", b"GET", b"", b"\xff", b"put"])),
-        (b"Accept-Language", lambda: rng.choice([b"sv", b"en;q=0.5, sv;q=0.9", b";;;", b"sv;q=NaN", b"sv;q=1e400", b"en;q=-0"] + NASTY)),
+        (b"Accept-Language", lambda: rng.choice([b"sv", b"en;q=0.5, sv;q=0.9", b";;;", b"sv;q=NaN", b"sv;q=1e400", b"en;q=-0"] + NASTY +
+                                                [weighted_list(rng, [b"sv", b"en", b"en-GB", b"de", b"*", b""]) for _ in range(6)] +
+                                                [weighted_list(rng, [b"sv", b"en", b"en-GB", b"de", b"fr", b"x"], k=rng.choice([21, 40]))])),
         (b"User-Agent", lambda: rng.choice([b"Mozilla/5.0 (Mobile) Firefox/1", b"curl"] + NASTY)),
         (b"Cookie", lambda: rng.choice([b"a=b; c=d", b";", b" ; "] + NASTY)),
         (b"Access-Control-Request-Headers", lambda: rng.choice([b"x-a, x-b", b","] + NASTY)),
@@ -283,6 +300,35 @@ NASTY = [b"", b"a", b"\xff", b"\x80", b"\xc3", b"\xc3\xa9", b"\xe2\x82", b";", b
 READ_HEADERS = [b"Accept-Language", b"User-Agent", b"Cookie", b"Accept-Encoding", b"Range", b"If-Modified-Since", b"Origin",
                 b"Access-Control-Request-Method", b"Access-Control-Request-Headers", b"Host", b"Content-Length", b"Connection", b"Upgrade",
                 b"Content-Type", b"Cache-Control", b"Expect", b"Transfer-Encoding", b"Accept"]
+
+
+# weight texts of a list member (accept-encoding, accept-language): what f32::from_str accepts beyond RFC 9110's qvalue — NaN and the
+# infinities in any case and with a sign, signed zeros, exponents beyond the binary32 range, a bare leading or trailing dot, a plus
+# sign, hundreds of digits — and what it refuses (hex floats, digit separators, suffixes, two dots, two signs, an empty text)
+Q_CORE = [b"nan", b"inf", b"-inf", b"-0", b"0", b"1", b".5", b"1e400", b"1e-400", b"+1", b"1.", b"0x1p-1", b"9" * 300]
+Q_TEXTS = Q_CORE + [b"NaN", b"-nan", b"+NAN", b"Infinity", b"+infinity", b"-INF", b"0.0", b"+0", b"-0.0", b"0e0", b"1.0", b"1.000", b"-1", b"5.",
+                    b"0.5", b"0.001", b"-1e400", b"1e-46", b"7e-46", b"1e-45", b"3.4028236e38", b"1e", b"e1", b"1e+", b".", b"+", b"-",
+                    b"0x10", b"1_0", b"1f32", b"0." + b"0" * 300 + b"1", b"1" + b"0" * 40 + b"e-40", b"1e" + b"9" * 30, b"1e-" + b"9" * 30,
+                    b"", b"1,5", b"q", b"nan(0x1)", b"NaN.0", b"--1", b"+-1", b"1.5.5", b"1e1e1", b"1 1", b"\xd9\xa1", b"\xef\xbc\x91", b"\xff",
+                    b"1\t", b"00000000000000000000000000000000000000001", b"0.99999997", b"1.00000006", b"16777217e-7"]
+Q_CODINGS = [b"gzip", b"br", b"zstd", b"identity", b"*", b"deflate", b"GZIP", b"x-gzip", b"", b"gzip", b"br"]
+N_AE_TARGETS = 5             # Model/Panics.v ae_targets
+
+
+def weighted_list(rng, names, k=None):
+    """a list header: k members out of `names`, most with a weight out of Q_TEXTS, odd spacing and parameter syntax"""
+    out = []
+    for _ in range(k if k is not None else rng.choice([1, 2, 2, 2, 3, 4])):
+        m = rng.choice(names)
+        if rng.random() < 0.85:
+            m += rng.choice([b";q=", b";q=", b";q=", b"; q=", b";Q=", b" ;q=", b";q =", b";q=;q=", b";level=1;q=", b";"]) + rng.choice(Q_TEXTS)
+        out.append(m)
+    return rng.choice([b", ", b",", b" , ", b",,"]).join(out)
+
+
+def ae_case(value, target, kind):
+    # a value the request line cannot carry unchanged is the harness's out of domain (it answers (L (N 96)))
+    return Case("c02.ae", xl(xb(value), xn(target)), None, {"kind": kind})
 
 
 def mutate(rng, s, alpha=ALPHA + b"\x00\xff\t\x7f\x80"):
@@ -372,6 +418,9 @@ def generate(rng, tier):
     cases.append(conn_case(b"GET / HTTP/1.1\r\nA: \n\r\n", "corpus"))
     cases.append(conn_case(b"GET /h HTTP/1.1\r\nRange: bytes=0-18446744073709551615\r\n\r\n", "corpus"))
     cases.append(conn_case(b"GET /e.html HTTP/1.1\r\n\r\nGET /n.html HTTP/1.1\r\n\r\nGET /x.html HTTP/1.1\r\n\r\n", "corpus"))
+    # dc5aa45 (the documented vary callback sorted NaN weights with a comparator that is no total order: 40 members)
+    cases.append(conn_case(b"GET /v HTTP/1.1\r\nHost: localhost\r\nAccept-Language: " + b", ".join(
+        [b"en;q=0.1", b"sv;q=0.5", b"sv;q=0.9", b"fr;q=0.9", b"fr;q=0", b"en;q=nan", b"fr;q=nan", b"fr;q=0.9", b"sv;q=inf", b"fr;q=0.5"] * 4) + b"\r\n\r\n", "corpus"))
     cases += range_cases(b"bytes=0-18446744073709551615", 10, "corpus")
     cases += [hdr_case(b"A: \n\n", "corpus"), hdr_case(b"A:\n\n", "corpus"), head_case(b"GET / HTTP/1.1\r\nA: \n\r\n", "corpus")]
     # 176c67e (an empty last template), 4e78a7d (a quote that is not closed)
@@ -454,6 +503,40 @@ def generate(rng, tier):
         cases.append(Case("neg.list_header", xb(w), None, {"kind": "ae-words"}, "dev"))
     for _ in range(500 if quick else 30000):
         cases.append(Case("neg.list_header", xb(rand_bytes(rng, rng.randrange(0, 40), ALPHA_AE)), None, {"kind": "ae-random"}, rng.choice(PROFILES)))
+    # ... with the weight texts f32::from_str accepts or refuses beyond a qvalue (nan, inf, 1e400, -0, .5, 1., +1, hex, 300 digits)
+    for w in Q_TEXTS:
+        for tmpl in (b"gzip;q=%s", b"gzip;q=%s, br", b"br, gzip; q=%s", b"gzip;q=%s;q=1"):
+            if w.isascii():
+                cases.append(Case("neg.list_header", xb(tmpl % w), None, {"kind": "ae-weights"}, "dev"))
+    for _ in range(300 if quick else 20000):
+        v = weighted_list(rng, Q_CODINGS)
+        if v.isascii():
+            cases.append(Case("neg.list_header", xb(v), None, {"kind": "ae-weights"}, rng.choice(PROFILES)))
+    # ... and through a live connection to pages that ARE compressed (handler page cached / never cached, file, built-in 404 page)
+    # and one under the 50-byte floor, twice each (the second answer comes from the cache / the memo cells): the coding of the answer
+    # is COMPARED with Negotiate.clone_preferred.  Every pair of the core weights on two codings, each core weight beside a member
+    # without weight in both orders (bounded-exhaustive; the target rotates), then random lists
+    n = 0
+    for w1 in Q_CORE:
+        for w2 in Q_CORE + [None]:
+            for a, b_ in ((b"gzip", b"br"), (b"br", b"gzip")) if w2 is None else ((b"gzip", b"br"),):
+                v = a + b";q=" + w1 + b", " + b_ + (b";q=" + w2 if w2 is not None else b"")
+                for t in (range(4) if not quick else (n % 4,)):
+                    cases.append(ae_case(v, t, "ae-live-pairs"))
+                n += 1
+    for w in Q_TEXTS:
+        if not any(c < 32 or c == 127 for c in w):
+            cases.append(ae_case(b"identity;q=" + w + b", gzip;q=0", n % N_AE_TARGETS, "ae-live-weights"))
+            cases.append(ae_case(b"*;q=" + w + b", zstd;q=0, br;q=" + w, (n + 2) % N_AE_TARGETS, "ae-live-weights"))
+            cases.append(ae_case(b"zstd;q=" + w + b", gzip;q=" + w + b", br;q=" + w, (n + 1) % 4, "ae-live-weights"))
+            n += 1
+    for v in [b"", b"gzip", b"br", b"zstd", b"identity", b"*", b"identity;q=0", b"*;q=0", b"gzip, identity;q=0", b"IDENTITY;q=0, gzip;q=0",
+              b"zstd;q=0, br;q=0, gzip", b",", b";", b";q=nan", b"q=nan", b"\xff", b"gzip\xff, br", b"gzip;q=nan;q=0", b"gzip;q=0;q=nan, br;q=nan"]:
+        for t in range(N_AE_TARGETS):
+            cases.append(ae_case(v, t, "ae-live-fixed"))
+    for _ in range(150 if quick else 6000):
+        v = weighted_list(rng, Q_CODINGS).strip(b" \t")
+        cases.append(ae_case(v if rng.random() < 0.9 else mutate(rng, v, ALPHA_AE + b"nNaAiIfFeE+-x\xff"), rng.randrange(N_AE_TARGETS), "ae-live-random"))
     # If-Modified-Since: the time crate's parser as handle_cache calls it (exploration)
     dates = [b"Tue, 27 Jul 2021 14:08:15 GMT", b"Thu, 01 Jan 1970 00:00:00 GMT", b"Fri, 31 Dec 9999 23:59:59 GMT", b"Sat, 01 Jan 0000 00:00:00 GMT",
              b"Tue, 27 Jul -9999 14:08:15 GMT", b"Tue, 27 Jul +9999 14:08:15 GMT", b"Tue, 27 Jul 99999 14:08:15 GMT", b"Tue, 29 Feb 2021 00:00:00 GMT",
@@ -571,6 +654,42 @@ def generate(rng, tier):
                 data = m + b" " + t + b" HTTP/1.1\r\n" + b"".join(h + b"\r\n" for h in hs) + hn + b": " + v + b"\r\n\r\n"
                 # twice on one connection: the second request meets the cache entry / the limiter's count of the first
                 cases.append(conn_case(data + data, "conn-header-value"))
+    # lists with weights (accept-encoding, accept-language) on every kind of page — compressed, streamed, templated, limited, HEAD,
+    # with a Range —, three requests per connection; the long accept-language lists reach the vary callback of /v
+    AE_PAGES = [b"/h", b"/nc", b"/index.html", b"/nothing-here.html", b"/f.txt", b"/sub/", b"/v", b"/t2.html", b"/n.html", b"/stream/s1000.bin",
+                b"/api/x?a=1", b"/c1.html", b"/a2.html"]
+    def ae_request(v):
+        m = rng.choice([b"GET", b"GET", b"GET", b"HEAD", b"POST", b"OPTIONS"])
+        hs = [b"Host: " + rng.choice([b"localhost", b"localhost", b"localhost", b"b.example", b"lim.example"]),
+              rng.choice([b"Accept-Encoding: ", b"Accept-Encoding: ", b"accept-encoding:", b"Accept-Language: "]) + v]
+        if rng.random() < 0.25:
+            hs.append(b"Range: " + rng.choice([b"bytes=0-9", b"bytes=5-", b"bytes=0-%d" % U64, b"bytes=9-2"]))
+        if rng.random() < 0.15:
+            hs.append(b"If-Modified-Since: " + rng.choice([b"Fri, 31 Dec 9999 23:59:59 GMT", b"Thu, 01 Jan 1970 00:00:00 GMT"]))
+        if rng.random() < 0.15:
+            hs.append(b"Accept-Encoding: " + weighted_list(rng, Q_CODINGS))       # a second header of the same name
+        rng.shuffle(hs)
+        return m + b" " + rng.choice(AE_PAGES) + b" HTTP/1.1\r\n" + b"".join(h + b"\r\n" for h in hs) + b"\r\n"
+    for i in range(120 if quick else 5000):
+        v = weighted_list(rng, Q_CODINGS if i % 4 else [b"sv", b"en", b"en-GB", b"de", b"x"], k=None if i % 8 else rng.choice([21, 33, 64]))
+        reqs = [ae_request(v) for _ in range(3)]
+        # one segment per request, so that each is read on its own
+        cases.append(conn_case(b"".join(reqs), "conn-weights", sched=[len(r) for r in reqs]))
+    # the vary callback of /v ranks the accept-language members by weight (the example of kvarn's documentation): lists of more
+    # than 20 members (slice::sort_by checks the comparator's consistency from there on) whose weights are numbers, infinities and NaNs
+    for i in range(16 if quick else 600):
+        k = [24, 33, 40, 48, 64, 21, 100, 200][i % 8]
+        v = b", ".join(rng.choice([b"sv", b"en", b"en-GB", b"de", b"fr"]) + b";q=" +
+                       rng.choice([b"nan", b"NaN", b"1", b"0.5", b"0.9", b"0.1", b"inf", b"0", b"-1", b"1e400", b"-nan"]) for _ in range(k))
+        data = (b"GET /v HTTP/1.1\r\nHost: " + (b"localhost" if i % 4 else b"lim.example") + b"\r\nAccept-Language: " + v +
+                b"\r\nAccept-Encoding: " + weighted_list(rng, Q_CODINGS) + b"\r\n\r\n")
+        cases.append(conn_case(data, "conn-lang-weights"))
+    for w in Q_CORE:
+        for v in (b"gzip;q=" + w + b", br", b"br;q=" + w + b", gzip;q=" + w):
+            data = b"GET " + rng.choice(AE_PAGES[:5]) + b" HTTP/1.1\r\nHost: localhost\r\nAccept-Encoding: " + v + b"\r\n\r\n"
+            cases.append(conn_case(data, "server-weights", comp="explore.server"))
+    for _ in range(15 if quick else 1500):
+        cases.append(conn_case(ae_request(weighted_list(rng, Q_CODINGS)), "server-weights", comp="explore.server"))
     # drain(): no handler reads the body; the head arrives alone, then the body in pieces, then more than the body (the next request / garbage)
     for t in (b"/f.txt", b"/index.html", b"/nothing", b"/h", b"/stream/s10.bin", b"/t2.html"):
         for cl in (1, 3, 4096, 5000, 70000):
@@ -689,7 +808,7 @@ def has_panic(c, i):
     return i.startswith(PANIC)
 
 
-LIVE = ("explore.conn", "explore.server", "explore.file", "explore.date", "ims.decide", "stream.window", "c02.path", "tmpl.render")
+LIVE = ("explore.conn", "explore.server", "explore.file", "explore.date", "ims.decide", "stream.window", "c02.path", "c02.ae", "tmpl.render")
 TROUBLE = {}          # id -> (component, kind, message) of the live cases the harness could not execute (no verdict)
 
 
@@ -724,10 +843,13 @@ def extra_oracle(c, i):
     bad = has_panic(c, i)
     if bad:
         what = "a panic" + (": " + bytes.fromhex(i[i.index("(B ") + 3:i.index(")", i.index("(B "))]).decode("latin1")
-                            if c.comp.startswith("explore") and "(B " in i else "")
+                            if (c.comp.startswith("explore") or c.comp == "c02.ae") and "(B " in i else "")
         return "%s in %s on this input (profile %s)" % (what, c.comp, c.profile)
     if c.comp in ("explore.conn", "explore.file") and i.startswith("(L (N 94)"):
         return "the connection task did not end within 30 s after the client closed its sending side (two attempts)"
+    if c.comp == "c02.ae" and i.startswith("(L (N 97)"):
+        return ("a well-formed request with this accept-encoding value was not answered: "
+                + bytes.fromhex(i[i.index("(B ") + 3:i.index(")", i.index("(B "))]).decode("latin1"))
     if c.comp == "explore.server" and i.startswith("(L (N 95)"):
         return "shutdown::Manager::get_connecions() did not return to its idle value after the connection had gone: " + i
     if c.comp in ("explore.date", "ims.decide") and i.startswith("(L (N 92)"):
@@ -800,7 +922,7 @@ def extra_coverage(cases, impl, model, spec):
             "exploration_only_cases": len(expl),
             "exploration_note": "explore.conn / explore.server / explore.file / explore.date / explore.urls are a TEST of the unmodelled rest (live "
                                 "handle_connection and a live server with the default extensions + kvarn-extensions, CORS, CSP, nonce, vary rules on three "
-                                "headers, files, templates, stream_body, a query-parsing and a body-reading handler, a rate-limited host): their 'model' is "
+                                "headers, files, templates, stream_body, a query-parsing and a body-reading handler, a compressible page that is never cached, a rate-limited host): their 'model' is "
                                 "the constant 'ends cleanly'",
             "panics_observed": sum(1 for c in cases if c.id in impl and c.meta.get("kind") != "live-accounting" and extra_oracle(c, impl[c.id])),
             "not_executed_ids": [{"id": c.id, "component": c.comp, "kind": c.meta.get("kind"), "missing": ("implementation" if c.id not in impl else "model")}
@@ -839,7 +961,12 @@ RULE = ("No PANIC outcome anywhere (oracle independent of the models), and the m
         "range.serve (Range values: extreme numbers 0..10^40 around 2^32, 2^63, 2^64, "
         "words over the value alphabet, mutations; both profiles) and stream.window (stream_body over loopback: announced length, the bytes really sent — the chunk loop runs to its end on "
         "files of up to 200000 bytes with windows around the 64 KiB buffer boundaries and beyond the file —, the framing of the next response); "
-        "neg.list_header (Accept-Encoding / Accept-Language words and random values); ims.decide (If-Modified-Since through the REAL hit arm of handle_cache on a warmed cache: 200 / 304 vs. "
+        "neg.list_header (Accept-Encoding / Accept-Language words and random values, and members weighted with ~70 texts around f32::from_str: nan / inf / infinity in any case and sign, "
+        "signed zeros, 1e400, 1e-400, .5, 1., +1, hex floats, 300 digits, the binary32 rounding boundaries of 0 and 1, malformed ones); c02.ae (a well-formed GET with a weighted accept-encoding "
+        "list, sent twice on one loopback connection — the second after the first answer arrived, so that it meets the response cache and the memo cells — to a handler page that is cached, "
+        "one that is never cached, a file, the built-in 404 page of a host without an errors directory, and a 12-byte file under the compression floor: status and content-encoding of both "
+        "answers vs. Negotiate.clone_preferred; bounded-exhaustive: every pair of 13 core weight texts on gzip and br, each beside an unweighted member in both orders; identity / * / all "
+        "three codings under every weight text; random lists; a request that is not answered is a failing input of its own); ims.decide (If-Modified-Since through the REAL hit arm of handle_cache on a warmed cache: 200 / 304 vs. "
         "Model/Ims.v; one field at a time away from a valid date, random fields, calendar corners, the ends of the time crate's range); "
         "cors.check (Origin, C13's generator); hosts.lookup (Host, C15's generator); pathsan.direct (targets over {/ . % 2 e f a %2e %2f %ff}); "
         "query.parse / query.iter / pathquery (query strings over {a b = & % 2 %26 %3d e-acute +}, every next/next_back script up to length 4, "
@@ -848,7 +975,9 @@ RULE = ("No PANIC outcome anywhere (oracle independent of the models), and the m
         "template files and page bodies bounded-exhaustively over {$[ a b ] LF CRLF \\ SP} up to 4 / 5 tokens, random compositions). "
         "PLUS EXPLORATION (a test, not a proof; the 'model' is 'ends cleanly'): explore.conn — the special heads, mutated valid requests (all header kinds above, "
         "pipelined, with random TCP segmentation), every header the core / a vary rule / an extension reads with values of 0..2 bytes that are not text or not UTF-8, several requests to a "
-        "rate-limited host (429, drop) — over loopback to the real kvarn::handle_connection on hosts with Extensions::new() + kvarn_extensions::mount_all + CORS "
+        "rate-limited host (429, drop), weighted accept-encoding / accept-language lists (the weight texts above, odd parameter syntax, doubled headers) on every kind of page with HEAD / POST / Range / "
+        "If-Modified-Since, three requests per connection, and accept-language lists of 21..200 members with NaN / infinite weights on the page whose vary callback ranks the languages by weight "
+        "(the callback of kvarn's documentation) — over loopback to the real kvarn::handle_connection on hosts with Extensions::new() + kvarn_extensions::mount_all + CORS "
         "rules + vary rules + handlers + files + templates + stream_body; a counting panic hook and the connection task's JoinHandle::is_panic must stay clean and the "
         "task must end after the client closes; explore.server — the same bytes against a real RunConfig::execute server: shutdown::Manager::get_connecions() must return to its idle value; "
         "explore.file — generated first lines ('!> ' + extension names + arguments) and template files (bounded-exhaustive over {$[ a ] LF CRLF \\ SP}) served through the real Present extensions; "
@@ -866,6 +995,13 @@ ASSUMPTIONS = [
     "bodies fit in memory (length < 2^64), the hypothesis of range_never_panics (page_fits)",
     "c02.path: an Accept-Encoding value that names identity or * (it may refuse the identity encoding: 406 from clone_preferred, decided by C06) is outside "
     "request_path's page-per-encoding-class abstraction and is not compared (a panic is never out of domain: the no-panic oracle still applies)",
+    "c02.ae: the pages are text/html (compressible), the server's preferred coding is zstd with the fallback order zstd, br, gzip (CompressionOptions::default, all three "
+    "features built in); the accept-encoding value is one a header line carries unchanged (no control bytes, no optional whitespace at its ends — else out of domain); only status and "
+    "content-encoding are compared (the bodies and their decoding are C06's subject); the two requests of a case are written one after the other's answer — what a server does with a "
+    "second request that arrives in the same segment as the first head is not observed here",
+    "weight_order_variant_refuted is about code that does NOT exist in kvarn (sort_weights: an insertion sort, what slice::sort_by is for up to 20 elements, with the comparator "
+    "b.partial_cmp(a).unwrap()); it documents why no client-controlled float may be ordered that way. The consistency check inside core::slice::sort (the panic of the documented vary "
+    "callback, repaired by dc5aa45) is not modelled: that defect is covered by the live exploration only (kind conn-lang-weights and its corpus input)",
     "stream.window: whether seeking a file to an offset in [2^31, 2^63) succeeds depends on the file system; those starts are out of domain "
     "(the model's seek fails exactly beyond i64::MAX); stream_body_never_panics: every read returns at most the 64 KiB buffer and file offsets stay "
     "below 2^63 (what the kernel guarantees)",
@@ -881,10 +1017,11 @@ TRUSTED = ["modelled here (Model/Panics.v): utils/src/parse.rs query, Query::{in
            "(repaired code, commit 55bc7f7), src/comprash.rs PathQuery, src/extensions.rs stream_body (window arithmetic and the chunk loop); "
            "Model/Ims.v: the If-Modified-Since test of handle_cache incl. the time crate's parser for HTTP_DATE; Model/UrlCrawl.v: url_crawl::LinkIter "
            "(repaired code, commit 4e78a7d) and its two filters; Model/Templates.v: kvarn-extensions' extract_templates (repaired code, commit 176c67e) and "
-           "handle_template",
+           "handle_template; ae_answer (the status / content-encoding clone_preferred's reply is sent with, incl. the 'identity' label error::default gives the 406 page) on top of "
+           "Negotiate.clone_preferred, compared live by c02.ae",
            "borrowed models (tied by their own properties and re-run here): Http1Read.v, Range.v, RangeConn.v, PathSan.v, Negotiate.v, Cors.v, Hosts.v, "
            "PresentLine.v, Limiter.v, Nonce.v",
-           "harness/src/c02.rs, c02conn.rs (loopback client, counting panic hook, real server on a locked port, fixture tree), c07.rs (scripted reader), c09.rs, c06.rs, c13.rs, c15.rs, c01.rs, c16.rs",
+           "harness/src/c02.rs, c02conn.rs (loopback client, counting panic hook, real server on a locked port, fixture tree, the framing of the two answers of c02.ae by content-length), c07.rs (scripted reader), c09.rs, c06.rs, c13.rs, c15.rs, c01.rs, c16.rs",
            "the ORDER in which request_path composes the stages is a hand transcription of handle_connection / handle_cache / SendKind::send, COMPARED "
            "with the real handle_connection by component c02.path on a minimal collection (class of the answer); the page, the cache state and the limiter "
            "history are parameters of the theorem, instantiated there by a 10-byte page, no cache, limiter off"]
@@ -895,11 +1032,16 @@ LEVEL_TEXT = ("Machine-checked Coq theorems: every modelled parser / decision fu
               "request_path, in the code's order (reader -> host choice -> request limiter -> sanitize path / range -> CORS gate incl. preflight -> cache key -> file path -> "
               "query parsing -> negotiation -> cache -> range -> send), never panics for any head, schedule, host collection, limiter configuration and history, page and cache state. "
               "The If-Modified-Since test is modelled with the time crate's parser: no header value panics it, it answers 304 exactly for a date not older than creation - 1 s, and the "
-              "rewrite that does its arithmetic on the client's date is refuted (year 9999). The models are byte-faithful "
+              "rewrite that does its arithmetic on the client's date is refuted (year 9999). The weights of accept-encoding members go through f32::from_str, which accepts nan / inf / 1e400 / -0: "
+              "for ANY weight parser every page is answered — 406 exactly when identity is refused and nothing else applies, else its own status with identity or a coding the list names "
+              "with a non-zero weight (accept_encoding_always_answered, tied to live connections by component c02.ae) — because the code tests a weight with == 0.0 / != 0.0 / == 1.0 only; a rewrite that "
+              "ORDERS the client's weights with partial_cmp(..).unwrap() panics exactly on lists of two or more members with a NaN (weight_order_variant_refuted). The models are byte-faithful "
               "transcriptions with every slice / index / unwrap / checked arithmetic explicit and are tied to the code on every run by a "
               "differential run in which a panic must be predicted exactly — the composition itself by the class of the answer of the real handle_connection —, plus a "
-              "model-independent no-panic oracle; three defects found on the way are repaired and their old behaviour kept as refuted statements where modelled "
-              "(Query::get_last always panicked; url_crawl::LinkIter on an unclosed quote; kvarn-extensions' template parser on an empty last template). "
+              "model-independent no-panic oracle; four defects found on the way are repaired and their old behaviour kept as refuted statements where modelled "
+              "(Query::get_last always panicked; url_crawl::LinkIter on an unclosed quote; kvarn-extensions' template parser on an empty last template; NOT modelled, found and kept by the live "
+              "exploration only: the vary callback of kvarn's documentation sorted accept-language weights with a comparator that is no total order once a weight is NaN, and slice::sort_by "
+              "panics on it for more than 20 members). "
               "What is NOT modelled (http, moka, tokio, compressors, TLS/h2/h3, vary lookup, CSP, MIME detection, kvarn-extensions' other Present code) is covered by exploration runs against live "
               "connections, a live server (whose connection count must return to idle) and generated file contents only — a test, not a proof.")
 LEVEL_NOTE = ("Partial by construction: panic-freedom is proved for the modelled functions (see coverage.inventory for the table of partial "
@@ -966,6 +1108,10 @@ THEOREMS = [
      "forall h : bytes, CacheControl.from_kvarn_cache_control false h <> Panic"),
     ("kvarn_cache_control_checked_refuted",
      "CacheControl.from_kvarn_cache_control true (B \"4294967295d\") = Panic"),
+    ("accept_encoding_always_answered",
+     "forall (parse_q : bytes -> option Negotiate.qclass) (status : N) (big : bool) (ae : option bytes), let values := Negotiate.header_values parse_q ae in (ae_answer parse_q status big ae = (406, Some Negotiate.s_identity) /\\ Negotiate.disable_identity values = true) \\/ (ae_answer parse_q status big ae = (status, Some Negotiate.s_identity) /\\ Negotiate.disable_identity values = false) \\/ (exists a, ae_answer parse_q status big ae = (status, Some (Negotiate.alg_name a)) /\\ big = true /\\ Negotiate.contains values (Negotiate.alg_name a) = true)"),
+    ("weight_order_variant_refuted",
+     "forall (A : Type) (l : list (A * fweight)), sort_weights l = Panic <-> (2 <= length l)%nat /\\ Exists (fun m => snd m = FNan) l"),
     ("request_path_never_panics",
      "forall (grow : nat -> nat -> nat -> nat) (parse_q : bytes -> option Negotiate.qclass) (checked : bool) (mode : N) (https : bool) (ops : list Hosts.op) (c : Hosts.collection) (dh : option bytes) (max_len : nat) (limit : N) (lcfg : Limiter.config) (t0 : N) (lh : list Limiter.event) (addr now : N) (public : bytes) (cors_default_deny caching : bool) (pg : RangeConn.page) (cache : option RangeConn.page) (stream : bytes) (sched : list nat), Hosts.build ops = Ok c -> Limiter.fits (S (length lh)) -> RangeConn.page_fits pg -> RangeConn.cache_ok pg cache -> request_path grow parse_q checked mode https c dh max_len limit lcfg t0 lh addr now public cors_default_deny caching pg cache stream sched <> Panic"),
 ]
